@@ -46,9 +46,18 @@ package client
 // What the log's server answers cannot make the fetcher or the checkpoint reader panic (C19).
 //@ func (*HTTPFetcher).GetData
 //@   returns (b, err)
-//@   requires f != nil && f.c != nil
-//@   modifies heap
+//@   requires f != nil && f.c != nil && f.ctx != nil
+//@   modifies heap, req_method, req_url, req_body, req_ctx, n_do, do_method, do_url, do_body, do_err, do_status, do_final_method, do_resp_body, rd_buf, do_ctx, n_noctx
 //@   ensures[C19.s] err != nil ==> b == nil
+//@   // at most one request, sent with the context the fetcher was built with (so that it ends when the feed cycle does)
+//@   ensures[C19.ctx,C13.ctx] n_do <= old(n_do) + 1 && (n_do == old(n_do) + 1 ==> do_ctx == f.ctx && do_method == "GET")
+//@   ensures[C19.ctx,C13.ctx] f.ctx != noCtx() ==> n_noctx == old(n_noctx)
+
+// Both constructors install an HTTP fetcher bound to a context: the given one, or the background context.
+//@ func NewSumDBWithContext
+//@   returns (r)
+//@   ensures[C19.ctx,C13.ctx] r != nil && fresh(r) && r.height == height && r.fetcher != nil
+//@   ensures[C19.ctx,C13.ctx] unboxPtr(r.fetcher, HTTPFetcher).ctx == ctx && unboxPtr(r.fetcher, HTTPFetcher).c == c && unboxPtr(r.fetcher, HTTPFetcher).baseURL == url
 
 //@ func (*SumDBClient).LatestCheckpoint
 //@   returns (cp, err)
